@@ -12,6 +12,11 @@ import (
 type SpecClause struct {
 	Text string
 	Pos  string
+	// Props, if set (clause written `@C03 expr`), restricts the clause to checks of those
+	// properties. GoalOnly clauses (`check-ensures`) are proved at the function's returns but
+	// never assumed at its call sites.
+	Props    []string
+	GoalOnly bool
 }
 
 type LoopContract struct {
@@ -296,7 +301,15 @@ func (cs *ContractSet) parseFile(fset *token.FileSet, pkgPath string, f *ast.Fil
 			}
 		case "requires":
 			cur.Requires = append(cur.Requires, cl)
-		case "ensures":
+		case "ensures", "check-ensures":
+			if strings.HasPrefix(cl.Text, "@") {
+				f := strings.SplitN(cl.Text, " ", 2)
+				if len(f) == 2 {
+					cl.Props = strings.Split(strings.TrimPrefix(f[0], "@"), ",")
+					cl.Text = strings.TrimSpace(f[1])
+				}
+			}
+			cl.GoalOnly = word == "check-ensures"
 			cur.Ensures = append(cur.Ensures, cl)
 		case "panics":
 			c := cl
@@ -401,7 +414,7 @@ func (cs *ContractSet) parseFile(fset *token.FileSet, pkgPath string, f *ast.Fil
 				continue
 			}
 			hd := strings.Fields(parts[0])
-			ca := CallAssert{Callee: hd[0], Ord: -1, Clause: SpecClause{strings.TrimSpace(parts[1]), ln.pos}}
+			ca := CallAssert{Callee: hd[0], Ord: -1, Clause: SpecClause{Text: strings.TrimSpace(parts[1]), Pos: ln.pos}}
 			if len(hd) > 1 && strings.HasPrefix(hd[1], "#") {
 				ca.Ord, _ = strconv.Atoi(hd[1][1:])
 			}
